@@ -558,6 +558,33 @@ func genC20(t *rapid.T) *Scenario {
 // times, every time on a NEW location under the same parent (or a new top-level
 // name, or a new change of the same key), so that the tracer's structures grow.
 func genC20History(t *rapid.T, fork string) *Scenario {
+	if chance(t, 20, "codesize") {
+		// the same flat-fee JUMP executed many times inside init code of a chosen (large)
+		// size: what a jump costs the VM must not scale with the size of the code around it
+		// (the one-off analysis of the code shows in the first execution only)
+		size := pickInt(t, "codesz", 4096, 65536, 1<<20, 1<<20)
+		iters := pickInt(t, "codeit", 300, 2000)
+		a := NewAsm()
+		top, end := a.NewLabel(), a.NewLabel()
+		a.Push(iters)
+		a.Label(top)
+		a.Op(DUP1, ISZERO).Jumpi(end)
+		a.Push(1).Op(SWAP1, SUB).Jump(top)
+		a.Label(end)
+		a.Op(POP, STOP)
+		code := a.Bytes()
+		init := make([]byte, size)
+		copy(init, code)
+		if forkIndex(fork) >= 11 {
+			fork = "London" // EIP-3860 caps init code from Shanghai on
+		}
+		sc := &Scenario{Fork: fork}
+		sc.Accounts = []Account{{Addr: ContractAddrs[0], Nonce: 1, Code: []byte{STOP}}, {Addr: EOAAddr, Balance: hexU64(1 << 40), Nonce: 1}}
+		sc.Invs = []Invocation{{Kind: "create", Origin: EOAAddr, Caller: EOAAddr, Input: init, Gas: 25_000_000, JP: true}}
+		ex := c20Extra{Note: fmt.Sprintf("history codesize=%d jumps=%d big", size, iters), HistOp: JUMP, HistN: iters}
+		sc.Extra, _ = json.Marshal(ex)
+		return sc
+	}
 	n := pickInt(t, "histn", 64, 1000, 4000, 12000, 20000)
 	op := []byte{IVVVJNAL, IVVRJNAL, IRVVJNAL, IRVRJNAL, VSVJNAL, RSVJNAL, VVJNAL}[uniform(t, 0, 6, "histop")]
 	const pSlot, pType, kType, base = 0x1002, 0x5002, 0x6000, 0x100000
